@@ -335,7 +335,7 @@ def _cases(chk, rnd) -> list[dict]:
         if c.get("kind") == "value":
             c["vals"] = [_deser(v) for v in c["vals"]]
         cases.append(c)
-    per = 1 if chk.tier == "quick" else 6
+    per = 3 if chk.tier == "quick" else 12
     for ty in ALL_TYPES:
         for path in PATHS:
             for rep in range(per):
@@ -356,7 +356,7 @@ def _cases(chk, rnd) -> list[dict]:
     for ty in ("NUMBER(10,2)", "VARCHAR", "TIMESTAMP_TZ", "VARIANT", "INT"):
         for path in ("literal", "clone", "ctas", "insert-select"):
             cases.append({"kind": "value", "ty": ty, "path": path, "vals": [None, None]})
-    ncopy = 150 if chk.tier == "quick" else 1500
+    ncopy = 300 if chk.tier == "quick" else 3000
     for _ in range(ncopy):
         def rows(n):
             pool = [[rnd.choice([1, 2, 3, None]), rnd.choice([None, 5, 6]), rnd.choice([None, 0, 9])] for _ in range(3)]
